@@ -65,7 +65,7 @@ Inductive hval := HElem (i : nat) | HVal (v : value).     (* i = which caller El
 Inductive soapheaders :=
 | SHOne (h : hval)                      (* a single value, not a tuple/list/dict *)
 | SHSeq (l : list hval)                 (* tuple or list: positional *)
-| SHDict (l : list (name * value)).     (* dict keyed by header element (part) name *)
+| SHDict (l : list (name * hval)).      (* dict keyed by header element (part) name; a value may be a ready-made Element *)
 
 (* a datetime value held by a token, or something DateTime() rejects *)
 Inductive dtv := DT (c : civil) (t : tod) (tz : tzr) | DTBad.
@@ -198,19 +198,28 @@ Fixpoint seq_loop (pts : list edecl) (n : nat) (hs : list hval) : hres (list hre
   end.
 
 (* dict.get: keys of a dict are unique; first entry with that key *)
-Fixpoint dict_get (k : name) (l : list (name * value)) : option value :=
+Fixpoint dict_get (k : name) (l : list (name * hval)) : option hval :=
   match l with
   | [] => None
   | (k', v) :: l' => if N.eqb k' k then Some v else dict_get k l'
   end.
 
-Fixpoint dict_loop (pts : list edecl) (dict : list (name * value)) : hres (list href) :=
+(* a ready-made Element given as the VALUE of a declared part goes through
+   mkheader and the marshaller like any value: mx.appender.ElementAppender puts
+   a new ElementWrapper around it (a fresh node that prints the caller's
+   element), so what add() renames and Header.append re-parents is the wrapper,
+   never the caller's object; the element is sent as it is *)
+Definition wrapped_of (i : nat) : hres href := copy_of i.
+
+Fixpoint dict_loop (pts : list edecl) (dict : list (name * hval)) : hres (list href) :=
   match pts with
   | [] => HOk []
   | d :: pts' =>
       match dict_get (e_name d) dict with
-      | None | Some VNone => dict_loop pts' dict                (* continue *)
-      | Some v =>
+      | None | Some (HVal VNone) => dict_loop pts' dict         (* continue *)
+      | Some (HElem i) =>
+          hbind (wrapped_of i) (fun c => hbind (dict_loop pts' dict) (fun r => HOk (c :: r)))
+      | Some (HVal v) =>
           hbind (add_entry d v) (fun h =>
           hbind (dict_loop pts' dict) (fun r => HOk (map RFresh h ++ r)))
       end
@@ -280,13 +289,15 @@ Fixpoint seq_loop_q (pts : list edecl) (n : nat) (hs : list hval) : hres (list h
            end
   end.
 
-Fixpoint dict_loop_q (pts : list edecl) (dict : list (name * value)) : hres (list href) :=
+Fixpoint dict_loop_q (pts : list edecl) (dict : list (name * hval)) : hres (list href) :=
   match pts with
   | [] => HOk []
   | d :: pts' =>
       match dict_get (e_name d) dict with
-      | None | Some VNone => dict_loop_q pts' dict
-      | Some v =>
+      | None | Some (HVal VNone) => dict_loop_q pts' dict
+      | Some (HElem i) =>
+          hbind (wrapped_of i) (fun c => hbind (dict_loop_q pts' dict) (fun r => HOk (c :: r)))
+      | Some (HVal v) =>
           hbind (add_entry_q d v) (fun h =>
           hbind (dict_loop_q pts' dict) (fun r => HOk (map RFresh h ++ r)))
       end
@@ -326,6 +337,29 @@ Fixpoint attach (m : nat) (refs : list href) (st : store) : list xnode * store :
       | None => attach m r st
       end
   end.
+
+(* ------------------------------------------------------------------ *)
+(* wsdl.Binding.add_operations / header, bindings.Binding.headpart_types *)
+(* ------------------------------------------------------------------ *)
+(* every soap:header child of wsdl:input is appended to soap.input.headers,
+   every soap:header child of wsdl:output to soap.output.headers (document
+   order); headpart_types(method, input) reads one of the two lists.  The
+   switch `slip` is the variant in which the loop over the output's children
+   registers on the input side (used only to name that defect). *)
+Record soap_headers := mkSoapH { sh_in : list edecl; sh_out : list edecl }.
+
+Definition register (to_input : bool) (s : soap_headers) (h : edecl) : soap_headers :=
+  if to_input then mkSoapH (sh_in s ++ [h]) (sh_out s) else mkSoapH (sh_in s) (sh_out s ++ [h]).
+
+Definition add_operation_q (slip : bool) (ins outs : list edecl) : soap_headers :=
+  fold_left (register slip) outs (fold_left (register true) ins (mkSoapH [] [])).
+Definition add_operation : list edecl -> list edecl -> soap_headers := add_operation_q false.
+
+Definition headpart_types (s : soap_headers) (input : bool) : list edecl :=
+  if input then sh_in s else sh_out s.
+
+(* the declared parts a request is built from *)
+Definition request_parts (ins outs : list edecl) : list edecl := headpart_types (add_operation ins outs) true.
 
 Record config := mkCfg {
   g_schema : schema; g_xstq : bool; g_pts : list edecl;
@@ -389,13 +423,20 @@ Fixpoint ref_seq (pts : list edecl) (hs : list hval) : option (list xnode) :=
       end
   end.
 
-(* a dict: every declared part whose element name is a key *)
-Fixpoint ref_dict (pts : list edecl) (dict : list (name * value)) : option (list xnode) :=
+(* a dict: every declared part whose element name is a key; a ready-made
+   element given as the value is included verbatim *)
+Definition ref_dict_value (d : edecl) (h : hval) : option (list xnode) :=
+  match h with
+  | HVal v => ref_entry d v
+  | HElem i => match nth_error trees i with Some t => Some [t] | None => None end
+  end.
+
+Fixpoint ref_dict (pts : list edecl) (dict : list (name * hval)) : option (list xnode) :=
   match pts with
   | [] => Some []
   | d :: pts' =>
       ocons_app (match find (fun kv => N.eqb (fst kv) (e_name d)) dict with
-                 | Some kv => ref_entry d (snd kv)
+                 | Some kv => ref_dict_value d (snd kv)
                  | None => Some []
                  end) (ref_dict pts' dict)
   end.
@@ -545,13 +586,14 @@ Fixpoint seq_guard (pts : list edecl) (hs : list hval) : bool :=
       end
   end.
 
-Fixpoint dict_guard (pts : list edecl) (dict : list (name * value)) : bool :=
+Fixpoint dict_guard (pts : list edecl) (dict : list (name * hval)) : bool :=
   match pts with
   | [] => true
   | d :: pts' =>
       match dict_get (e_name d) dict with
       | None => dict_guard pts' dict
-      | Some v => entry_ok d v && dict_guard pts' dict
+      | Some (HVal v) => entry_ok d v && dict_guard pts' dict
+      | Some (HElem i) => Nat.ltb i nstore && dict_guard pts' dict
       end
   end.
 
@@ -573,12 +615,15 @@ Inductive ires := IHdr (kids : list xnode) (stamps : list str) | IErr (e : herr)
 Record icall := mkIC { ic_res : ires; ic_after : list (xnode * bool) }.
 
 Record hcase := mkH {
-  h_schema : schema; h_xstq : bool; h_pts : list edecl;
+  h_schema : schema; h_xstq : bool;
+  h_pts : list edecl;                     (* the soap:header children of the operation's wsdl:input ... *)
+  h_out : list edecl;                     (* ... and of its wsdl:output, as written in the WSDL *)
   h_trees : list xnode;                   (* the caller's elements before the first call *)
   h_wsse : option security; h_sh : soapheaders;
   h_calls : list icall }.
 
-Definition h_cfg (c : hcase) : config := mkCfg (h_schema c) (h_xstq c) (h_pts c) (h_wsse c) (h_sh c).
+Definition h_cfg (c : hcase) : config :=
+  mkCfg (h_schema c) (h_xstq c) (request_parts (h_pts c) (h_out c)) (h_wsse c) (h_sh c).
 Definition init_store (c : hcase) : store := map (fun t => mkCE t None) (h_trees c).
 
 Definition res_matches (r : hres (list xnode * list str)) (i : ires) : bool :=
@@ -624,6 +669,12 @@ Fixpoint run_model_q (q : quirks) (g : config) (m : nat) (st : store) (calls : l
   end.
 Definition hdr_agrees_q (q : quirks) (c : hcase) : bool :=
   run_model_q q (h_cfg c) 0 (init_store c) (h_calls c).
+
+(* ... and against the variant in which the reply's header parts are
+   registered as request parts *)
+Definition hdr_agrees_slip (c : hcase) : bool :=
+  run_model (mkCfg (h_schema c) (h_xstq c) (headpart_types (add_operation_q true (h_pts c) (h_out c)) true)
+                   (h_wsse c) (h_sh c)) 0 (init_store c) (h_calls c).
 
 Definition ires_eqb (a b : ires) : bool :=
   match a, b with
